@@ -158,6 +158,8 @@ func newEnc(P *Program, db *SpecDB, r *Resolver) *Enc {
 		"(forall ((p Int)) (! (and (< (arrslice p) 0) (= (rtag (arrslice p)) 2) (= (rootof (arrslice p)) (rootof p))) :pattern ((arrslice p))))",
 		"(forall ((p Int)) (! (=> (> p 0) (= (rootof p) p)) :pattern ((rootof p))))",
 	)
+	empty := e.strLit("")
+	e.asserts = append(e.asserts, fmt.Sprintf("(forall ((s Str)) (! (=> (= (strlen s) 0) (= s %s)) :pattern ((strlen s))))", empty.S))
 	return e
 }
 
@@ -490,7 +492,27 @@ func (e *Enc) typeTag(t types.Type) Term {
 }
 
 // valIte merges two values of the same shape.
+func (e *Enc) closureRef(c ClosureV) Term {
+	if len(c.Bindings) == 0 {
+		return e.funcRef(c.Fn)
+	}
+	// an opaque non-nil function value (calls through it are havocked)
+	r := e.freshConst("closure", SInt)
+	e.fact(tLt(tInt(0), r))
+	return r
+}
+
 func (e *Enc) valIte(c Term, a, b Val) Val {
+	if ca, ok := a.(ClosureV); ok {
+		if _, isT := b.(Term); isT {
+			a = e.closureRef(ca)
+		}
+	}
+	if cb, ok := b.(ClosureV); ok {
+		if _, isT := a.(Term); isT {
+			b = e.closureRef(cb)
+		}
+	}
 	switch a := a.(type) {
 	case Term:
 		bt, ok := b.(Term)
@@ -848,9 +870,7 @@ func (e *Enc) opaqueStruct(t types.Type) bool {
 
 // loadAt reads a value of type t stored at reference ref.
 func (e *Enc) loadAt(st *State, ref Term, t types.Type) Val {
-	if e.opaqueStruct(t) {
-		e.unsup("load of external struct value %s", t)
-	}
+
 	if s := structOf(t); s != nil {
 		sv := StructV{T: t}
 		for i := 0; i < s.NumFields(); i++ {
@@ -882,9 +902,7 @@ func (e *Enc) loadField(st *State, ref Term, S types.Type, i int) Val {
 }
 
 func (e *Enc) storeAt(st *State, ref Term, t types.Type, v Val) {
-	if e.opaqueStruct(t) {
-		e.unsup("store of external struct value %s", t)
-	}
+
 	if s := structOf(t); s != nil {
 		sv, ok := v.(StructV)
 		if !ok {
